@@ -186,25 +186,23 @@ theorem reassemble_safe (c : HsCtx) (m : HsMsg) {Q b n} (hc : c.Ok) (htot : m.to
 
 attribute [local irreducible] reassemble
 
-theorem onMessage_safe (isClient authenticated : Bool) (c : HsCtx) (m : HsMsg) {Q b n}
+theorem onMessage_safe (isClient : Bool) (c : HsCtx) (m : HsMsg) {Q b n}
     (hc : c.Ok) (hseq : m.seq ≤ 65535) (htot : m.total < 16777216)
-    (h : ∀ c' n', c'.Ok → Q c' b n') : safe T (onMessage isClient authenticated c m) Q b n := by
+    (h : ∀ c' n', c'.Ok → Q c' b n') : safe T (onMessage isClient c m) Q b n := by
   unfold onMessage
   have ha := acceptSeq_le isClient c.recvSeq c.postHvr m.typ m.seq
   obtain ⟨h1, h2⟩ := hc
   dsimp only
   apply safe_ite <;> intro hacc
   · apply safe_pure; apply h; exact ⟨h1, h2⟩
-  apply safe_ite <;> intro hk
-  · apply safe_pure; apply h; unfold HsCtx.Ok; dsimp only; exact ⟨by omega, h2⟩
   · apply reassemble_safe _ _ _ htot h
     unfold HsCtx.Ok; dsimp only
     exact ⟨by omega, h2⟩
 
 attribute [local irreducible] onMessage
 
-theorem payloadWalk_safe (isClient authenticated : Bool) (c : HsCtx) {Q b n} (hc : c.Ok)
-    (h : ∀ c' b' n', c'.Ok → Q c' b' n') : safe T (payloadWalk isClient authenticated c) Q b n := by
+theorem payloadWalk_safe (isClient : Bool) (c : HsCtx) {Q b n} (hc : c.Ok)
+    (h : ∀ c' b' n', c'.Ok → Q c' b' n') : safe T (payloadWalk isClient c) Q b n := by
   unfold payloadWalk
   apply safe_bind; apply safe_remaining
   apply safe_loop (fun c' _ _ => c'.Ok) (fun _ b' => b'.rem)
@@ -225,7 +223,7 @@ theorem payloadWalk_safe (isClient authenticated : Bool) (c : HsCtx) {Q b n} (hc
         have hf := hfields t total seq fo fl x heq
         have hp := hprog (by intro hnil; rw [hnil] at heq; simp at heq)
         apply safe_bind
-        apply onMessage_safe _ _ _ _ hc' (show seq ≤ 65535 by omega) hf.1
+        apply onMessage_safe _ _ _ hc' (show seq ≤ 65535 by omega) hf.1
         intro c'' n'' hc''
         apply safe_ite <;> intro hfail
         · apply safe_pure; exact h _ _ _ hc''
@@ -247,7 +245,7 @@ theorem payloadHistory_safe (isClient : Bool) (ps : List (List UInt8)) (c : HsCt
   | cons p rest ih =>
     unfold payloadHistory
     apply safe_bind; apply safe_onBuf
-    apply payloadWalk_safe _ _ _ hc
+    apply payloadWalk_safe _ _ hc
     intro c' b' n' hc'
     dsimp only
     apply safe_bind
@@ -285,7 +283,7 @@ theorem datagramWalk_safe (isClient : Bool) (c : HsCtx) {Q b n} (hc : c.Ok)
         · apply safe_pure; exact h _ _ _ hc'
         apply safe_ite <;> intro h3
         · apply safe_bind; apply safe_onBuf
-          apply payloadWalk_safe _ _ _ hc'
+          apply payloadWalk_safe _ _ hc'
           intro c'' b3 n3 hc''
           apply safe_ite <;> intro hf
           · apply safe_pure; exact h _ _ _ hc''
